@@ -1,8 +1,8 @@
 package chk
 
 import (
-	"go/token"
 	"go/ast"
+	"go/token"
 	"go/types"
 )
 
